@@ -30,13 +30,21 @@ def scenario_steps(rng, kind, reloads):
     def add(post, settle=True):
         st.append({"sleep": 0, "post": post, "settle": settle})
     if kind == "cachekeys":
-        pairs = list(CACHE_PAIRS)
+        # pairs whose per-chunk cache keys coincide although one of the two is not a plain conjunction (its result must
+        # not be taken from - or put into - the cache under that key): always a few of these, plus some of the others
+        share = [("^ab", "ab"), ("ab$", "ab"), ("'ab", "ab"), ("^ab$", "ab"), ("ab", "ab$"), ("ab !x", "ab"), ("'ab'", "ab"),
+                 ("abc", "^abc"), ("abc !a", "abc"), ("xyz", "xyz$")]
+        rest = [p for p in CACHE_PAIRS if p not in share]
+        rng.shuffle(share)
+        rng.shuffle(rest)
+        pairs = share[:3] + rest[:rng.randint(2, 5)]
         rng.shuffle(pairs)
-        for a, b in pairs[:rng.randint(5, 9)]:
+        for a, b in pairs:
             add("change-query(%s)" % a)
             add("change-query(%s)" % b)
-            if rng.random() < 0.3:
-                add("toggle-sort")
+            add("toggle-sort")                  # forgets the whole-list results, keeps the per-chunk cache: both are
+            add("change-query(%s)" % a)         # computed again, each after the other has filled the per-chunk cache
+            add("change-query(%s)" % b)
     elif kind == "casekeys":
         # smart-case: the same letters in another case are another pattern (pattern cache, merger cache, chunk cache keys)
         seqs = [["ab", "Ab", "AB", "ab", "aB"], ["x", "X", "x"], ["xy", "XY", "Xy", "xy"], ["abc", "ABC", "abc"], ["ba", "Ba", "ba", "bA"]]
@@ -74,6 +82,21 @@ def scenario_steps(rng, kind, reloads):
         for _ in range(rng.randint(3, 6)):
             st.append({"sleep": rng.choice([0.3, 0.6, 1.0]), "post": rng.choice(["change-query(x)", "change-query(ab)", "clear-query", "put(y)",
                                                                                  "toggle-sort", "backward-delete-char", "change-query(xy)"])})
+    elif kind == "slow-scan":
+        # scans that take a while (gate delay per chunk): query changes arrive while the previous scan is still running,
+        # including a change BACK to the query whose result is on display
+        qs = rng.sample(["a", "x", "b", "y", "ab", "xy"], 3)
+        add("change-query(%s)" % qs[0])
+        for _ in range(rng.randint(2, 4)):
+            other = rng.choice(qs[1:])
+            st.append({"sleep": 0, "post": "change-query(%s)" % other})
+            st.append({"sleep": rng.choice([0.01, 0.03, 0.06]), "post": "change-query(%s)" % qs[0]})
+            st.append({"check": True})          # quiescence: the list on display must be that of the query on the prompt
+    elif kind == "reload-same-matches":
+        # the new input has exactly as many lines - and as many matches for any query - as the old one
+        add("change-query(%s)" % rng.choice(["x", "y", "ab", "xy"]))
+        add(rng.choice(["RELOAD0", "RELOADSYNC0"]))
+        add("down")
     elif kind == "reload-same-count":
         # a reload whose first burst brings exactly as many lines as the old input had, with a query typed while the
         # new input is still empty (the matcher's result cache must not outlive the input it was filled for)
@@ -173,7 +196,7 @@ def make_steps(rng, n, slow, reloads=0, excludes=False):
     return steps
 
 
-def run_session(ctx, fzf, sid, lines, sched, steps, extra_args=(), width=70, height=16, race_log=False, reload_scheds=()):
+def run_session(ctx, fzf, sid, lines, sched, steps, extra_args=(), width=70, height=16, race_log=False, reload_scheds=(), chunk_ms=0):
     """reload_scheds: schedules for the reload commands RELOAD<k>; returns (trace, GET state, {command: k})."""
     sdir = os.path.join(ctx.work, "pl-%d-%d" % (os.getpid(), sid))
     os.makedirs(sdir, exist_ok=True)
@@ -187,11 +210,25 @@ def run_session(ctx, fzf, sid, lines, sched, steps, extra_args=(), width=70, hei
         with open(os.path.join(sdir, "resched%d.json" % k), "w") as fh:
             json.dump(rs, fh)
         cmds[k] = "python3 %s %s" % (os.path.join(sdir, "producer.py"), os.path.join(sdir, "resched%d.json" % k))
-    env = {"GORACE": "log_path=%s halt_on_error=0" % os.path.join(sdir, "race")} if race_log else None
+    env = {"GORACE": "log_path=%s halt_on_error=0" % os.path.join(sdir, "race")} if race_log else {}
+    if chunk_ms:
+        env["FZF_VERIF_GATE_DELAY"] = "scan.chunk=%d" % chunk_ms      # every chunk of a scan takes at least this long
+    env = env or None
     s = tmuxdrv.Session(ctx, fzf, ["--no-color", "--no-unicode"] + list(extra_args), input_cmd=input_cmd, width=width, height=height, env=env)
     try:
         s.wait_listening()
+        mids = []
         for st in steps:
+            if st.get("check"):
+                # mid-session quiescence: nothing moves any more (the spinner aside), then the state is read
+                s.wait_trace_quiet(quiet=0.4, timeout=60, ignore=("term.render",))
+                g = s.get()
+                n1 = sum(1 for e in s.trace() if e["ev"] != "term.render")
+                s.wait_trace_quiet(quiet=0.1, timeout=60, ignore=("term.render",))
+                tr_now = s.trace()
+                if g is not None and not g["reading"] and sum(1 for e in tr_now if e["ev"] != "term.render") == n1:
+                    mids.append((tr_now[-1]["seq"] if tr_now else 0, g))
+                continue
             if st["sleep"] > 0:
                 time.sleep(st["sleep"])
             body = st["post"]
@@ -217,7 +254,7 @@ def run_session(ctx, fzf, sid, lines, sched, steps, extra_args=(), width=70, hei
         def quiet(tr):
             if not any(e["ev"] == "coord.read" and e.get("fin") for e in tr):
                 return False
-            if sum(1 for e in tr if e["ev"] == "term.loop") < len(steps):
+            if sum(1 for e in tr if e["ev"] == "term.loop") < len([x for x in steps if not x.get("check")]):
                 return False
             return True
         s.wait_for(quiet, timeout=120, what="input end + all actions processed")
@@ -235,7 +272,7 @@ def run_session(ctx, fzf, sid, lines, sched, steps, extra_args=(), width=70, hei
                 st = s.get()
                 raise Infra("session %d: %s; state: %s; steps: %s; args: %s" % (
                     sid, ex, json.dumps({k: st.get(k) for k in ("reading", "totalCount", "matchCount", "query")} if st else None),
-                    json.dumps([x["post"][:60] for x in steps]), list(extra_args)))
+                    json.dumps([x.get("post", "CHECK")[:60] for x in steps]), list(extra_args)))
             st = s.get()
             if st is None:
                 raise Infra("GET / failed at quiescence")
@@ -250,11 +287,13 @@ def run_session(ctx, fzf, sid, lines, sched, steps, extra_args=(), width=70, hei
         s.post("abort", final=True)
         s.wait_exit()
         sync = {}
-        for st_ in steps:
+        for st_ in [x for x in steps if not x.get("check")]:
             for k in cmds:
                 if "RELOADSYNC%d" % k in st_["post"]:
                     sync[k] = True
-        return tr, st, {c: (k, sync.get(k, False)) for k, c in cmds.items()}
+        cm = {c: (k, sync.get(k, False)) for k, c in cmds.items()}
+        cm["__mids__"] = mids
+        return tr, st, cm
     finally:
         s.close()
 
@@ -270,7 +309,8 @@ def project(trace, get, sid, cmdmap=None, tail=0, sizes=None):
     evs = [{"ev": "start", "sid": sid, "tail": tail}]
     sizes = sizes or {}
     keys = set()
-    cmdmap = cmdmap or {}
+    cmdmap = dict(cmdmap or {})
+    mids = sorted(cmdmap.pop("__mids__", []), key=lambda m: m[0])
     major_input = {0: -1}
     denied, prev_denied, nth = [], None, ""
     wanted = []             # exclusions the user asked for (terminal side): must all be honoured at quiescence
@@ -290,8 +330,24 @@ def project(trace, get, sid, cmdmap=None, tail=0, sizes=None):
     issued = []             # (fields, cfg) of announced requests, oldest first
     scanning_cfg = None     # configuration of the request the matcher is serving right now
     overlap_cfg = None      # configuration that was being scanned when the caches were last cleared (it may have refilled them)
+    def quiescent_event(name, g):
+        ids_ = [m["index"] for m in g["matches"]]
+        wc = cfg_index((wanted_input, tuple(wanted), nth))
+        if cfgs and cfgs[last_cfg][0] == wanted_input and set(cfgs[last_cfg][1]) == set(wanted) and cfgs[last_cfg][2] == nth:
+            wc = last_cfg
+
+        def final_lo(ci):
+            # with --tail N the final snapshot holds the last N records of the (complete) input
+            inp = cfgs[ci][0] if ci < len(cfgs) else -1
+            return max(0, sizes.get(inp, 0) - tail) if tail else 0
+        evs.append({"ev": name, "q": g["query"], "total": g["totalCount"], "sort": g["sort"], "getres": fnv_res(ids_),
+                    "matchCount": g["matchCount"], "wcfg": wc, "lo": final_lo(last_cfg), "wlo": final_lo(wc)})
+        keys.add((g["query"], final_lo(last_cfg), g["totalCount"], g["sort"], last_cfg))
+        keys.add((g["query"], final_lo(wc), g["totalCount"], g["sort"], wc))
     for e in trace:
         k = e["ev"]
+        while mids and mids[0][0] < e["seq"]:
+            quiescent_event("mid", mids.pop(0)[1])
         if k == "match.slot":
             saw.append(dict(req(e), kind="reset" if e["kind"] == 1 else "retry"))
         elif k == "match.pick":
@@ -356,20 +412,9 @@ def project(trace, get, sid, cmdmap=None, tail=0, sizes=None):
                 wanted = wanted + [i for i in ids_ if i not in wanted]
         elif k == "term.loop":
             evs.append({"ev": "query", "q": e["input"], "seq": e["seq"]})
-    ids = [m["index"] for m in get["matches"]]
-    inp_last = cfgs[last_cfg][0] if cfgs else -1
-    wcfg = cfg_index((wanted_input, tuple(wanted), nth))
-    # the order of exclusions is irrelevant for the oracle; reuse the coordinator's configuration when the sets agree
-    if cfgs and cfgs[last_cfg][0] == wanted_input and set(cfgs[last_cfg][1]) == set(wanted) and cfgs[last_cfg][2] == nth:
-        wcfg = last_cfg
-    def final_lo(ci):
-        # with --tail N the final snapshot holds the last N records of the (complete) input
-        inp = cfgs[ci][0] if ci < len(cfgs) else -1
-        return max(0, sizes.get(inp, 0) - tail) if tail else 0
-    evs.append({"ev": "end", "q": get["query"], "total": get["totalCount"], "sort": get["sort"], "getres": fnv_res(ids),
-                "matchCount": get["matchCount"], "wcfg": wcfg, "lo": final_lo(last_cfg), "wlo": final_lo(wcfg)})
-    keys.add((get["query"], final_lo(last_cfg), get["totalCount"], get["sort"], last_cfg))
-    keys.add((get["query"], final_lo(wcfg), get["totalCount"], get["sort"], wcfg))
+    for m in mids:
+        quiescent_event("mid", m[1])
+    quiescent_event("end", get)
     return evs, keys, cfgs
 
 
